@@ -522,6 +522,25 @@ func history(c *mon.Ctx, r *gen.Rand) {
 			}
 		}
 	}
+	// last of all, the caller writes over the packets of a list it was given (whether or not later lists show
+	// that is not asserted, see the assumptions): the accumulated bytes are those of the packets that were written
+	if gp := acc.Packets(); len(gp) > 0 && len(mbytes) > 0 {
+		for _, q := range gp {
+			if q != nil {
+				for k := range q {
+					q[k] ^= 0x3c
+				}
+			}
+		}
+		c.Count("returned_packets_overwritten_then_bytes")
+		if state == done {
+			c.Count("returned_packets_overwritten_then_bytes.complete_unit")
+		}
+		if gb := acc.Bytes(); !bytes.Equal(gb, mbytes) {
+			fail("bytes-follow-the-returned-packets", fmt.Sprintf("after the caller wrote over the packets Packets() had returned, Bytes() (%d bytes, first difference at %d) is no longer the concatenation of the payloads that were accepted", len(gb), firstDiff(gb, mbytes)))
+			return
+		}
+	}
 	if accepted >= 2 {
 		var ev []string
 		for k := range events {
